@@ -104,7 +104,9 @@ int main ()
       // column), read back in order: every value returns and the stream stays good.  Output: mismatching components, fail flag
       else if (op == "o.c19.multi") { unsigned k = std::stoul (a.next()); unsigned sepc = std::stoul (a.next());
         const char* seps[] = { " ", "\n", "\t", "  \n ", "\r\n" }; std::string sep = seps[sepc % 5];
-        std::stringstream ss; ss.precision (17); std::vector<std::string> kinds; std::vector< std::vector<double> > vals;
+        unsigned fl = std::stoul (a.next());   // format flags of the writing stream: every value is written with the stream's own flags
+        std::stringstream ss; ss.precision (17); std::vector<std::string> kinds;
+        if (fl & 1) ss.setf (std::ios::showpos); if (fl & 2) ss.setf (std::ios::scientific, std::ios::floatfield); if (fl & 4) ss.setf (std::ios::uppercase); if (fl & 8) ss.setf (std::ios::showpoint); std::vector< std::vector<double> > vals;
         for (unsigned i=0;i<k;i++) { std::string kind = a.next(); kinds.push_back (kind); std::vector<double> v; unsigned n = kind == "d3" ? 3 : kind == "s" ? 4 : kind == "c2" ? 4 : kind == "e" ? 2 : 4;
           for (unsigned j=0;j<n;j++) v.push_back (rd (a.next())); vals.push_back (v); if (i) ss << sep;
           if (kind == "d3") ss << Vector<3,double> (v[0], v[1], v[2]); else if (kind == "s") ss << Stokes<double> (v[0], v[1], v[2], v[3]);
